@@ -9,12 +9,19 @@
 From Coq Require Import List Bool Arith String.
 Import ListNotations.
 
-Inductive asrc := SFresh | SVar (v : nat) | SMaybe (v : nat) (bit : nat).
+Inductive asrc := SFresh | SVar (v : nat) | SMaybe (v : nat) (bit : nat)
+| SRet (g p v : nat).      (* result of a call of package function g: refers to what v (bound to g's parameter p) refers to
+                              iff g's summary says its result may refer to parameter p *)
 Inductive instr :=
 | IAssign (strong : bool) (v : nat) (srcs : list asrc)     (* v = expr; expr may refer to the tensors of srcs *)
 | IInplace (v : nat)                                          (* the tensor(s) v may refer to are written in place *)
-| ILoop (body : list instr).                                  (* for / while: the body runs any number of times *)
-Record skel := mkSkel { sk_name : string; sk_targs : list nat; sk_nvars : nat; sk_nbits : nat; sk_code : list instr }.
+| ILoop (body : list instr)                                   (* for / while: the body runs any number of times *)
+| IIf (a b : list instr)                                      (* if / else: one of the two branches runs *)
+| ICallW (g p v : nat).                                       (* call of package function g with v bound to its parameter p:
+                                                                 v is written iff g's summary says g may write parameter p *)
+Record skel := mkSkel { sk_name : string; sk_targs : list nat; sk_nvars : nat; sk_nbits : nat; sk_retvar : nat; sk_code : list instr }.
+(* summary of a function: parameters its result may refer to, parameters it may write in place *)
+Definition summary := (list nat * list nat)%type.
 (* sk_targs: the parameters that can hold a tensor / mutable container (by their annotation); int / float / bool / str /
    enum parameters are immutable values, `n += 1` rebinds them *)
 
@@ -31,11 +38,14 @@ Fixpoint union (a b : list nat) : list nat :=
   | [] => b
   | x :: r => if existsb (Nat.eqb x) b then union r b else x :: union r b
   end.
+Section WithSummaries.
+Variable summ : list summary.       (* claimed summaries of all skeletons, by index *)
 Definition src_pts (bv : list bool) (p : pstate) (s : asrc) : list nat :=
   match s with
   | SFresh => []
   | SVar v => get p v
   | SMaybe v bit => if nth bit bv true then get p v else []
+  | SRet g prm v => if existsb (Nat.eqb prm) (fst (nth g summ ([], []))) then get p v else []
   end.
 Definition init_state (sk : skel) : pstate :=
   map (fun k => if existsb (Nat.eqb k) (sk_targs sk) then [k] else []) (seq 0 (sk_nvars sk)).
@@ -54,6 +64,15 @@ Fixpoint iter (n : nat) (f : pstate * list nat -> pstate * list nat) (x : pstate
   | S k => let y := f x in if state_eqb y x then x else iter k f y
   end.
 (* k: bound on the number of iterations of a loop body; (number of variables + 1) * (number of parameters + 1) changes suffice *)
+Fixpoint join_p (a b : pstate) : pstate :=
+  match a, b with
+  | x :: a', y :: b' => union x y :: join_p a' b'
+  | [], r | r, [] => r
+  end.
+Definition join (a b : pstate * list nat) : pstate * list nat := (join_p (fst a) (fst b), union (snd a) (snd b)).
+(* k: bound on the number of iterations of a loop body; (number of variables + 1) * (number of parameters + 1) changes suffice.
+   Branches run from the same state and are joined; a loop joins the state at its head with the state after its body
+   until nothing changes: strong updates inside a branch or a loop body are therefore sound. *)
 Fixpoint step (k : nat) (bv : list bool) (st : pstate * list nat) (i : instr) : pstate * list nat :=
   match i with
   | IAssign strong v srcs =>
@@ -61,15 +80,29 @@ Fixpoint step (k : nat) (bv : list bool) (st : pstate * list nat) (i : instr) : 
       let new := fold_left (fun acc s => union (src_pts bv p s) acc) srcs [] in
       (set_nth p v (if strong then new else union new (get p v)), w)
   | IInplace v => let '(p, w) := st in (p, union (get p v) w)
-  | ILoop body => iter k (fun s => fold_left (step k bv) body s) st
+  | ILoop body => iter k (fun s => join s (fold_left (step k bv) body s)) st
+  | IIf a b => join (fold_left (step k bv) a st) (fold_left (step k bv) b st)
+  | ICallW g prm v => let '(p, w) := st in
+                      if existsb (Nat.eqb prm) (snd (nth g summ ([], []))) then (p, union (get p v) w) else st
   end.
-Definition written (sk : skel) (bv : list bool) : list nat :=
-  snd (fold_left (step (S (sk_nvars sk) * S (List.length (sk_targs sk))) bv) (sk_code sk) (init_state sk, [])).
+Definition final_state (sk : skel) (bv : list bool) : pstate * list nat :=
+  fold_left (step (S (sk_nvars sk) * S (List.length (sk_targs sk))) bv) (sk_code sk) (init_state sk, []).
+Definition written (sk : skel) (bv : list bool) : list nat := snd (final_state sk bv).
+Definition returned (sk : skel) (bv : list bool) : list nat := get (fst (final_state sk bv)) (sk_retvar sk).
 
 Fixpoint all_vectors (n : nat) : list (list bool) :=
   match n with
   | 0 => [[]]
   | S k => flat_map (fun v => [true :: v; false :: v]) (all_vectors k)
   end.
-Definition no_arg_mutation (sk : skel) : bool :=
-  forallb (fun bv => match written sk bv with [] => true | _ => false end) (all_vectors (sk_nbits sk)).
+Definition subset (a b : list nat) : bool := forallb (fun x => existsb (Nat.eqb x) b) a.
+(* the claimed summary of a skeleton covers what its body can do, for every branch vector, given the claimed summaries
+   of the functions it calls (assume / guarantee: sound for all terminating calls by induction on the call depth) *)
+Definition summary_ok (sk : skel) (claimed : summary) : bool :=
+  forallb (fun bv => subset (returned sk bv) (fst claimed) && subset (written sk bv) (snd claimed)) (all_vectors (sk_nbits sk)).
+End WithSummaries.
+
+Definition all_summaries_ok (sks : list skel) (summ : list summary) : bool :=
+  (List.length sks =? List.length summ) && forallb (fun p => summary_ok summ (fst p) (snd p)) (combine sks summ).
+(* a function whose (checked) summary has no written parameter leaves the tensors of all its arguments alone *)
+Definition no_arg_mutation (claimed : summary) : bool := match snd claimed with [] => true | _ => false end.
